@@ -61,9 +61,13 @@ ASSUMPTIONS = [
     'junk inputs are restricted to wrong-shape arrays, elements of other '
     'spaces that cannot be cast, and non-numeric objects; None is not junk '
     '(space.element(None) is documented to create an element)',
-    'regions where another property\'s known finding makes the call itself '
-    'fail (F19/F30 Fourier variants, Huber on vector fields) are not '
-    'generated',
+    'regions where another property\'s still-known finding makes the call or '
+    'the construction itself fail are not generated: inverse of the '
+    'real-to-complex DFT (C18-F19b), real FourierTransform with an unshifted '
+    'axis in the half-complex variant / its pyfftw inverse without '
+    'halfcomplex (C18-F30), Huber on vector fields (F11), NumericalGradient '
+    'on spaces with more than one axis (C09-K6), adjoints of '
+    'MultiplyOperator on complex non-power product spaces',
 ]
 RULE = ('Hypothesis draws (catalogue entry, construction options, domain '
         'point with explicit leading values + seeded tail, input form, '
@@ -112,6 +116,8 @@ def _view_pool():
     if VIEW_POOL is None:
         VIEW_POOL = list(zoo.get_view_pool())
         VIEW_POOL_SIZE = len(VIEW_POOL)
+        if VIEW_POOL and 'expr-operand-returns-view' not in REQUIRED_STRATA:
+            REQUIRED_STRATA.append('expr-operand-returns-view')
         ASSUMPTIONS.append(
             'operators whose out-of-place result is a view of / identical '
             'to their argument (probed with np.shares_memory over the '
@@ -553,10 +559,9 @@ def run_case(desc):
 # entries that cannot reach status 'ok': classes documented to offer no
 # evaluation, and entries lying completely inside a known finding
 NEVER_OK = {'func.MoreauEnvelope', 'func.InfimalConvolution',
-            'func.FunctionalDefaultConvexConjugate', 'ufunc.modf',
-            'LinDeformFixedDisp', 'LinDeformFixedTempl',
+            'func.FunctionalDefaultConvexConjugate',
             'fprox.IndicatorNuclearNormUnitBall'}
-REQUIRED_STRATA = ['inplace', 'functional', 'expr-operand-returns-view', 'x-array', 'x-list', 'x-F',
+REQUIRED_STRATA = ['inplace', 'functional', 'x-array', 'x-list', 'x-F',
                    'x-strided', 'out-F', 'out-strided'] + \
     ['junk-' + k for k in JUNK_X] + ['badout-' + k for k in BAD_OUT] + \
     ['entry:' + n for n, e in zoo.ENTRIES.items()
